@@ -62,8 +62,12 @@ def gen_scanner(tree, workdir, spec, cfg, action=None, eof_action=None, extra_op
     opts = list(cfg.options) + list(extra_options)
     if cfg.api == 'r':
         opts.append('reentrant')
+    if cfg.api == 'c99':
+        opts.append('noyypanic')
     text = spec.render(action, extra_options=opts, eof_action=eof_action, prologue=prologue,
-                       sect2_prologue=sect2_prologue, epilogue=epilogue)
+                       sect2_prologue=sect2_prologue, epilogue=epilogue,
+                       append_rules=(['<*>.|\\n return %d;' % spec.default_rule.num]
+                                     if (cfg.api == 'c99' and not (spec.has_opt('nodefault') or '-s' in spec.flags + cfg.flags)) else []))
     lpath = os.path.join(workdir, base + '.l')
     with open(lpath, 'w', encoding='latin-1') as fh:
         fh.write(text)
@@ -101,6 +105,10 @@ def spec_action_id(spec, r):
     return rules[i].num if i < len(rules) else r.num
 
 
+def is_array(g):
+    return 'M4_MODE_YYTEXT_IS_ARRAY */' in g.text and 'M4_MODE_NO_YYTEXT_IS_ARRAY */' not in g.text
+
+
 def has_name(g, name):
     return re.search(r'\b%s\b' % re.escape(name), g.text) is not None
 
@@ -114,7 +122,7 @@ def table_facts(g):
         if m:
             f[k] = int(m.group(1))
     arrays = {}
-    for m in re.finditer(r'static const (?:YY_CHAR|flex_u?int\d+_t|yy_state_type|short|int|long)\s+(yy_\w+)\[(\d+)\]\s*=\s*\{([^}]*)\}', t):
+    for m in re.finditer(r'static const (?:YY_CHAR|(?:flex_)?u?int\d+_t|yy_state_type|short|int|long)\s+(yy_\w+)\[(\d+)\]\s*=\s*\{([^}]*)\}', t):
         try:
             arrays[m.group(1)] = [int(x) for x in m.group(3).replace('\n', ' ').split(',') if x.strip()]
         except ValueError:
@@ -157,36 +165,76 @@ def adapter(cfg, g):
 #define VP_LEX() yylex()
 #define VP_SCAN_BUFFER(b, n) yy_scan_buffer((b), (n))
 #define VP_SCAN_BYTES(b, n) yy_scan_bytes((b), (n))
+#define VP_SCAN_STRING(b) yy_scan_string((b))
 #define VP_PREV_STATE() yy_get_previous_state()
 #define VP_TRY_NUL(s) yy_try_NUL_trans(s)
 #define VP_DESTROY() yylex_destroy()
 #define VP_G(x) (x)
-#define VP_ALLOC_ARGS
-#define VP_ARG_ONLY
-#define VP_ARG_LAST
+#define VP_TEXT yytext
+#define VP_LENG yyleng
+#define VP_TEXTPTR (yytext_ptr)
+#define VP_BEGIN(s) yybegin(s)
+#define VP_START() yystart()
+#define VP_SETBOL(b) yysetbol(b)
+#define VP_ATBOL() yyatbol()
+#define VP_CURBUF() yy_current_buffer()
+#define VP_A0
+#define VP_A1
 '''
     if cfg.api == 'r':
         return r'''
-#define VP_DECL_SCANNER yyscan_t vp_scanner; struct yyguts_t *yyg;
-#define VP_INIT_SCANNER() do { int vp_rc = yylex_init(&vp_scanner); VP_ASSERT(vp_rc == 0, "yylex_init succeeds"); yyg = (struct yyguts_t *)vp_scanner; } while (0)
+#define VP_DECL_SCANNER yyscan_t vp_scanner; yyscan_t yyscanner; struct yyguts_t *yyg;
+#define VP_INIT_SCANNER() do { int vp_rc = yylex_init(&vp_scanner); VP_ASSERT(vp_rc == 0, "yylex_init succeeds"); yyg = (struct yyguts_t *)vp_scanner; yyscanner = vp_scanner; } while (0)
 #define VP_LEX() yylex(vp_scanner)
 #define VP_SCAN_BUFFER(b, n) yy_scan_buffer((b), (n), vp_scanner)
 #define VP_SCAN_BYTES(b, n) yy_scan_bytes((b), (n), vp_scanner)
+#define VP_SCAN_STRING(b) yy_scan_string((b), vp_scanner)
 #define VP_PREV_STATE() yy_get_previous_state(vp_scanner)
 #define VP_TRY_NUL(s) yy_try_NUL_trans((s), vp_scanner)
 #define VP_DESTROY() yylex_destroy(vp_scanner)
 #define VP_G(x) (yyg->x)
-#define VP_ARG_ONLY vp_scanner
-#define VP_ARG_LAST , vp_scanner
+#define VP_TEXT yytext
+#define VP_LENG yyleng
+#define VP_TEXTPTR (yyg->yytext_ptr)
+#define VP_BEGIN(s) yybegin(s)
+#define VP_START() yystart()
+#define VP_SETBOL(b) yysetbol(b)
+#define VP_ATBOL() yyatbol()
+#define VP_CURBUF() yy_current_buffer()
+#define VP_A0 vp_scanner
+#define VP_A1 , vp_scanner
+'''
+    if cfg.api == 'c99':
+        return r'''
+#define VP_DECL_SCANNER yyscan_t vp_scanner;
+#define VP_INIT_SCANNER() do { int vp_rc = yylex_init(&vp_scanner); VP_ASSERT(vp_rc == 0, "yylex_init succeeds"); } while (0)
+#define VP_LEX() yylex(vp_scanner)
+#define VP_SCAN_BUFFER(b, n) yy_scan_buffer((b), (n), vp_scanner)
+#define VP_SCAN_BYTES(b, n) yy_scan_bytes((b), (n), vp_scanner)
+#define VP_SCAN_STRING(b) yy_scan_string((b), vp_scanner)
+#define VP_PREV_STATE() yy_get_previous_state(vp_scanner)
+#define VP_TRY_NUL(s) yy_try_NUL_trans((s), vp_scanner)
+#define VP_DESTROY() yylex_destroy(vp_scanner)
+#define VP_G(x) (vp_scanner->x)
+#define VP_TEXT (vp_scanner->yytext_r)
+#define VP_LENG (vp_scanner->yyleng_r)
+#define VP_TEXTPTR (vp_scanner->yytext_r)
+#define VP_BEGIN(s) yybegin((s), vp_scanner)
+#define VP_START() yystart(vp_scanner)
+#define VP_SETBOL(b) yysetbol((b), vp_scanner)
+#define VP_ATBOL() yyatbol(vp_scanner)
+#define VP_CURBUF() yy_current_buffer(vp_scanner)
+#define VP_A0 vp_scanner
+#define VP_A1 , vp_scanner
 '''
     raise ValueError(cfg.api)
 
 
-ALLOC_NR = r'''
+ALLOC = r'''
 /* replacement allocator (%option noyyalloc noyyrealloc noyyfree): exact-size
  * blocks, never fails in functional harnesses */
-void *yyalloc(yy_size_t n VP_ALLOC_EXTRA) { void *p = malloc(n); VP_ASSUME(p != 0); return p; }
-void *yyrealloc(void *q, yy_size_t n VP_ALLOC_EXTRA) { void *p = realloc(q, n); VP_ASSUME(p != 0); return p; }
+void *yyalloc(VP_SIZE_T n VP_ALLOC_EXTRA) { void *p = malloc(n); VP_ASSUME(p != 0); return p; }
+void *yyrealloc(void *q, VP_SIZE_T n VP_ALLOC_EXTRA) { void *p = realloc(q, n); VP_ASSUME(p != 0); return p; }
 void yyfree(void *p VP_ALLOC_EXTRA) { free(p); }
 '''
 
@@ -196,17 +244,22 @@ def common_head(g, cfg, spec, nmax, nodefault=False):
     head = ['#include "vp_harness.h"',
             ref,
             'static const char *vp_fatal_msg; static int vp_expect_fatal;',
-            'static void vp_fatal(const char *m);',
-            '#define YY_FATAL_ERROR(m) vp_fatal(m)',
-            '#define yyecho() return VP_DEFAULT_RULE',
-            '#define ECHO yyecho()' if False else '',
-            '#include "%s"' % os.path.basename(g.cpath),
-            adapter(cfg, g)]
-    if cfg.api == 'r':
-        head.append('#define VP_ALLOC_EXTRA , yyscan_t vp_unused_scanner')
+            'static void vp_fatal(const char *m);']
+    if cfg.api == 'c99':
+        head += ['struct yyguts_t;',
+                 'static void yypanic(const char *m, struct yyguts_t *s) { (void)s; vp_fatal(m); }',
+                 'void *yyalloc(size_t, struct yyguts_t *); void *yyrealloc(void *, size_t, struct yyguts_t *); void yyfree(void *, struct yyguts_t *);',
+                 '#define VP_SIZE_T size_t',
+                 '#define VP_ALLOC_EXTRA , struct yyguts_t *vp_unused_scanner']
     else:
-        head.append('#define VP_ALLOC_EXTRA')
-    head.append(ALLOC_NR)
+        head += ['#define YY_FATAL_ERROR(m) vp_fatal(m)',
+                 '#define yyecho() return VP_DEFAULT_RULE',
+                 '#define VP_SIZE_T yy_size_t']
+        if cfg.api == 'r':
+            head.append('#define VP_ALLOC_EXTRA , yyscan_t vp_unused_scanner')
+        else:
+            head.append('#define VP_ALLOC_EXTRA')
+    head += ['#include "%s"' % os.path.basename(g.cpath), adapter(cfg, g), ALLOC]
     head.append(r'''
 static void vp_fatal(const char *m) {
   vp_fatal_msg = m;
@@ -255,6 +308,7 @@ def e1_harness(g, cfg, spec, n, maxnul, nodefault=False, witness=None, check_pos
     H.append('#define VP_7BIT %d' % (1 if cfg.seven_bit or spec.csize == 128 else 0))
     H.append('#define VP_NODEFAULT %d' % (1 if nodefault else 0))
     H.append('#define VP_CHECK_POST %d' % (1 if check_post else 0))
+    H.append('#define VP_ARRAY %d' % (1 if is_array(g) else 0))
     if witness:
         H.append('#define VP_WITNESS_RULE %d' % witness)
     H.append(r'''
@@ -291,11 +345,12 @@ int main(void) {
   VP_INIT_SCANNER();
   yybuffer b = VP_SCAN_BUFFER(vp_buf, VP_N + 2);
   VP_ASSERT(b != 0, "yy_scan_buffer accepts a doubly NUL-terminated buffer");
-  yybegin(vpi_sc);
-  yysetbol(vpi_bol);
+  VP_BEGIN(vpi_sc);
+  VP_SETBOL(vpi_bol);
   int t = VP_LEX();
+  const char *tx = VP_TEXT; int tl = VP_LENG;
 #ifdef VP_WITNESS_RULE
-  VP_ASSERT(!(VP_N > 0 && t == VP_WITNESS_RULE && yyleng == VP_N), "WITNESS: long token of chosen rule reachable");
+  VP_ASSERT(!(VP_N > 0 && t == VP_WITNESS_RULE && tl == VP_N), "WITNESS: long token of chosen rule reachable");
   return 0;
 #endif
   if (VP_N == 0) {
@@ -305,26 +360,30 @@ int main(void) {
   VP_ASSERT(rr >= 1, "reference selects a rule");
   VP_ASSERT(t == vp_actid[rr], "selected rule (longest match, first rule)");
   if (vp_has_trail(rr)) {
-    VP_ASSERT(vp_split_ok(rr, vpi_in, yyleng, tot), "trailing context: yytext is the head of a valid split of the longest match");
+    VP_ASSERT(vp_split_ok(rr, vpi_in, tl, tot), "trailing context: yytext is the head of a valid split of the longest match");
   } else {
-    VP_ASSERT(yyleng == tot, "yyleng is the longest match length");
+    VP_ASSERT(tl == tot, "yyleng is the longest match length");
   }
-  VP_ASSERT(yyleng >= 0 && yyleng <= VP_N, "yyleng within input");
-  VP_ASSERT(yytext == vp_buf, "yytext points at the token start");
+  VP_ASSERT(tl >= 0 && tl <= VP_N, "yyleng within input");
+#if VP_ARRAY
+  VP_ASSERT(VP_TEXTPTR == vp_buf, "token starts at the scan position");
+#else
+  VP_ASSERT(tx == vp_buf, "yytext points at the token start");
+#endif
   for (int i = 0; i < VP_N; i++)
-    if (i < yyleng) VP_ASSERT((unsigned char)yytext[i] == vpi_in[i], "yytext bytes");
-  VP_ASSERT(yytext[yyleng] == 0, "yytext is NUL terminated");
+    if (i < tl) VP_ASSERT((unsigned char)tx[i] == vpi_in[i], "yytext bytes");
+  VP_ASSERT(tx[tl] == 0, "yytext is NUL terminated");
 #if VP_CHECK_POST
   /* post-state: the scanner is positioned exactly behind the token, so the
    * next call is again a first-token step on the suffix */
-  VP_ASSERT(VP_G(yy_c_buf_p) == vp_buf + yyleng, "scan position is behind the token");
-  VP_ASSERT((unsigned char)VP_G(yy_hold_char) == (yyleng < VP_N ? vpi_in[yyleng] : 0), "held character is the next input byte");
+  VP_ASSERT(VP_G(yy_c_buf_p) == vp_buf + tl, "scan position is behind the token");
+  VP_ASSERT((unsigned char)VP_G(yy_hold_char) == (tl < VP_N ? vpi_in[tl] : 0), "held character is the next input byte");
   for (int i = 0; i < VP_N + 2; i++)
-    if (i > yyleng) VP_ASSERT((unsigned char)vp_buf[i] == (i < VP_N ? vpi_in[i] : 0), "unread input untouched");
+    if (i > tl) VP_ASSERT((unsigned char)vp_buf[i] == (i < VP_N ? vpi_in[i] : 0), "unread input untouched");
 #if VP_HAS_BOL
-  if (yyleng > 0) VP_ASSERT((yyatbol() != 0) == (vpi_in[yyleng - 1] == '\n'), "beginning-of-line flag after token");
+  if (tl > 0) VP_ASSERT((VP_ATBOL() != 0) == (vpi_in[tl - 1] == '\n'), "beginning-of-line flag after token");
 #endif
-  VP_ASSERT(yystart() == vpi_sc, "start condition unchanged by scanning");
+  VP_ASSERT(VP_START() == vpi_sc, "start condition unchanged by scanning");
 #endif
   return 0;
 }
@@ -341,6 +400,7 @@ def e2_harness(g, cfg, spec, nmax, witness_len=None, use_acclist=False):
     H.append('#define VP_7BIT %d' % (1 if cfg.seven_bit or spec.csize == 128 else 0))
     H.append('#define VP_FULLTBL %d' % (1 if kind == 'fulltbl' else 0))
     H.append('#define VP_ACCLIST %d' % (1 if use_acclist else 0))
+    H.append('#define VP_TRAILMASK %d' % (1 if has_name(g, 'YY_TRAILING_HEAD_MASK') else 0))
     H.append('#define VP_INTERACTIVE_TEST %d' % (1 if (kind == 'compressed' and 'YY_JAMBASE' in g.text) else 0))
     if witness_len is not None:
         H.append('#define VP_WITNESS_LEN %d' % witness_len)
@@ -378,10 +438,10 @@ int main(void) {
   VP_INIT_SCANNER();
   yybuffer b = VP_SCAN_BUFFER(vp_buf, VP_N + 2);
   VP_ASSERT(b != 0, "yy_scan_buffer");
-  yybegin(vpi_sc);
-  yysetbol(vpi_bol);
+  VP_BEGIN(vpi_sc);
+  VP_SETBOL(vpi_bol);
   /* white box: position the scanner as if vpi_len bytes had been matched */
-  VP_G(yytext_ptr) = vp_buf;
+  VP_TEXTPTR = vp_buf;
   VP_G(yy_c_buf_p) = vp_buf + vpi_len;
 #if VP_ACCLIST
   VP_G(yy_state_ptr) = VP_G(yy_state_buf);
@@ -410,7 +470,7 @@ int main(void) {
     for (int k = 0; k < VP_NRULES + 2; k++) {
       if (lo + k >= hi) break;
       int a = yy_acclist[lo + k];
-#ifdef YY_TRAILING_MASK
+#if VP_TRAILMASK
       if (a & YY_TRAILING_HEAD_MASK) continue;
       a &= ~YY_TRAILING_MASK;
 #endif
@@ -427,6 +487,165 @@ int main(void) {
     VP_ASSERT((yy_base[st] == YY_JAMBASE) == !vp_has_out(&s), "state is marked final exactly when no longer match is possible");
 #endif
   }
+  return 0;
+}
+''')
+    return '\n'.join(H)
+
+
+# ---------------------------------------------------------------------------
+# E3: tokens through refills (buffer of capacity BS, symbolic read schedule)
+
+POOL_ALLOC = r'''
+/* bounded replacement allocator: fixed-capacity blocks from a static pool
+ * (sizes never become symbolic); requests above the capacity are outside
+ * the bound of this harness */
+#ifndef VP_NBLK
+#define VP_NBLK 10
+#endif
+#ifndef VP_CAP
+#define VP_CAP 96
+#endif
+static union { char c[VP_CAP]; long long a; void *p; } vp_pool[VP_NBLK];
+static size_t vp_blk_size[VP_NBLK];
+static int vp_blk_live[VP_NBLK];
+static int vp_blk_used;
+static int vp_alloc_calls, vp_free_calls, vp_bad_free;
+static int vp_blk_of(void *p) {
+  for (int i = 0; i < VP_NBLK; i++) if ((void *)vp_pool[i].c == p) return i;
+  return -1;
+}
+void *yyalloc(VP_SIZE_T n VP_ALLOC_EXTRA) {
+  vp_alloc_calls++;
+  VP_ASSUME(n <= VP_CAP);              /* larger requests: outside the bound */
+  VP_ASSUME(vp_blk_used < VP_NBLK);
+  int i = vp_blk_used++;
+  vp_blk_size[i] = n; vp_blk_live[i] = 1;
+  return vp_pool[i].c;
+}
+void yyfree(void *p VP_ALLOC_EXTRA) {
+  vp_free_calls++;
+  if (p == 0) return;
+  int i = vp_blk_of(p);
+  if (i < 0 || !vp_blk_live[i]) { vp_bad_free++; return; }
+  vp_blk_live[i] = 0;
+}
+void *yyrealloc(void *q, VP_SIZE_T n VP_ALLOC_EXTRA) {
+  int i = vp_blk_of(q);
+  if (q != 0 && (i < 0 || !vp_blk_live[i])) { vp_bad_free++; }
+  VP_ASSUME(n <= VP_CAP);
+  VP_ASSUME(vp_blk_used < VP_NBLK);
+  int k = vp_blk_used++;
+  vp_alloc_calls++;
+  vp_blk_size[k] = n; vp_blk_live[k] = 1;
+  if (i >= 0) {
+    size_t m = vp_blk_size[i] < n ? vp_blk_size[i] : n;
+    for (size_t z = 0; z < VP_CAP; z++) if (z < m) vp_pool[k].c[z] = vp_pool[i].c[z];
+    vp_blk_live[i] = 0;
+  }
+  return vp_pool[k].c;
+}
+'''
+
+
+def head_with_pool(g, cfg, spec, nmax, pre_include=''):
+    """common_head variant using the pool allocator and a harness YY_INPUT."""
+    h = common_head(g, cfg, spec, nmax)
+    h = h.replace(ALLOC, POOL_ALLOC)
+    if pre_include:
+        marker = '#include "%s"' % os.path.basename(g.cpath)
+        h = h.replace(marker, pre_include + '\n' + marker)
+    return h
+
+
+def e3_harness(g, cfg, spec, m, bs, tokens=2, source='yyinput_macro', witness=False, maxnul=1):
+    """Stream of m symbolic bytes delivered through a buffer of capacity bs
+    with a symbolic read-size schedule; up to `tokens` yylex() calls."""
+    pre = ''
+    if source == 'yyinput_macro':
+        pre = ('static int vp_read(char *buf, int max_size);\n'
+               '#define YY_INPUT(buf, result, max_size) do { (result) = vp_read((buf), (int)(max_size)); } while (0)')
+    H = [head_with_pool(g, cfg, spec, max(m, 1), pre_include=pre)]
+    H.append(action_table(spec))
+    H.append(eof_table(spec))
+    H.append('#define VP_M %d' % m)
+    H.append('#define VP_BS %d' % bs)
+    H.append('#define VP_TOKENS %d' % tokens)
+    H.append('#define VP_MAXNUL %d' % maxnul)
+    H.append('#define VP_7BIT %d' % (1 if cfg.seven_bit or spec.csize == 128 else 0))
+    H.append('#define VP_ARRAY %d' % (1 if is_array(g) else 0))
+    if witness:
+        H.append('#define VP_WITNESS 1')
+    H.append(r'''
+unsigned char vpi_in[VP_M > 0 ? VP_M : 1];
+unsigned char vpi_chunk[VP_M + 2];
+int vpi_sc;
+static int vp_pos, vp_reads, vp_eof_seen, vp_max_request;
+static int vp_fake_file;
+
+static int vp_read(char *buf, int max_size) {
+  VP_ASSERT(max_size >= 1, "read request asks for at least one byte");
+  int avail = VP_M - vp_pos;
+  if (avail <= 0) { vp_eof_seen++; return 0; }
+  VP_ASSERT(vp_reads < VP_M + 2, "bounded number of reads");
+  int k = vpi_chunk[vp_reads < VP_M + 1 ? vp_reads : VP_M + 1];
+  vp_reads++;
+  VP_ASSUME(k >= 1 && k <= avail && k <= max_size);
+  for (int i = 0; i < VP_M; i++) if (i < k) buf[i] = (char)vpi_in[vp_pos + i];
+  vp_pos += k;
+  return k;
+}
+
+int main(void) {
+  VP_DECL_SCANNER
+#ifdef REPLAY
+#include "vp_replay_set.inc"
+#else
+  for (int i = 0; i < VP_M; i++) vpi_in[i] = nondet_uchar();
+  for (int i = 0; i < VP_M + 2; i++) vpi_chunk[i] = nondet_uchar();
+  vpi_sc = nondet_int();
+#endif
+  VP_ASSUME(vpi_sc >= 0 && vpi_sc < VP_NSC);
+  int nuls = 0;
+  for (int i = 0; i < VP_M; i++) {
+    if (vpi_in[i] == 0) nuls++;
+#if VP_7BIT
+    VP_ASSUME(vpi_in[i] < 128);
+#endif
+  }
+  VP_ASSUME(nuls <= VP_MAXNUL);
+  vp_expect_fatal = 0;
+  VP_INIT_SCANNER();
+  yybuffer b = yy_create_buffer((FILE *)&vp_fake_file, VP_BS VP_A1);
+  VP_ASSERT(b != 0, "yy_create_buffer");
+  yy_switch_to_buffer(b VP_A1);
+  VP_BEGIN(vpi_sc);
+  int off = 0, bol = 1, refilled_tokens = 0;
+  for (int t = 0; t < VP_TOKENS; t++) {
+    int tot = 0;
+    int rr = vp_first_token(vpi_in + off, VP_M - off, vpi_sc, bol, &tot);
+    int reads_before = vp_reads;
+    int tk = VP_LEX();
+    if (off >= VP_M) {
+      VP_ASSERT(tk == vp_eofret[vpi_sc], "end of input after all buffered text was tokenised");
+      VP_ASSERT(vp_pos == VP_M, "every source byte was read");
+      break;
+    }
+    const char *tx = VP_TEXT; int tl = VP_LENG;
+    VP_ASSERT(tk == vp_actid[rr], "token rule independent of delivery");
+    if (vp_has_trail(rr)) VP_ASSERT(vp_split_ok(rr, vpi_in + off, tl, tot), "trailing context split");
+    else VP_ASSERT(tl == tot, "token length independent of delivery");
+    VP_ASSERT(tl >= 1 && off + tl <= VP_M, "token within the stream");
+    for (int i = 0; i < VP_M; i++) if (i < tl) VP_ASSERT((unsigned char)tx[i] == vpi_in[off + i], "token text independent of delivery");
+    VP_ASSERT(tx[tl] == 0, "yytext terminated");
+    if (vp_reads - reads_before > 1) refilled_tokens++;
+    bol = (vpi_in[off + tl - 1] == '\n');
+    off += tl;
+  }
+#ifdef VP_WITNESS
+  VP_ASSERT(!(refilled_tokens > 0 && off == VP_M), "WITNESS: a token spanning two reads was delivered and the stream was consumed");
+#endif
+  VP_ASSERT(vp_bad_free == 0, "only live blocks are freed or reallocated");
   return 0;
 }
 ''')
